@@ -45,6 +45,8 @@ func pkgSum(c *rt.Ctx, xs ...int) int {
 	return n
 }
 
+func pkgSub(c *rt.Ctx, a, b int) int { c.X(907, a*100+b); return a - b }
+
 func ident[T any](x T) T { return x }
 
 type adder struct {
@@ -66,6 +68,8 @@ func more(c *rt.Ctx, n *int) func() bool {
 
 var etaCallees = []etaCallee{
 	{name: "pkgfunc", call: "pkgInc", sig: "(c *rt.Ctx, a int) int", args: "c, a", invoke: "c, 10"},
+	{name: "pkgfunc-permuted", call: "pkgSub", sig: "(c *rt.Ctx, a, b int) int", args: "c, b, a", invoke: "c, 10, 3"},
+	{name: "pkgfunc-rotated", call: "pkgSub", sig: "(c *rt.Ctx, b, a int) int", args: "c, a, b", invoke: "c, 10, 3"},
 	{name: "localvar", prelude: "f := func(a int) int { c.X(1, a); return a + 1 }", call: "f", mutate: "f = func(a int) int { c.X(2, a); return a + 2 }", sig: "(a int) int", args: "a", invoke: "10"},
 	{name: "nilvar", prelude: "var f func(int) int", call: "f", mutate: "f = func(a int) int { c.X(2, a); return a + 2 }", sig: "(a int) int", args: "a", invoke: "10"},
 	{name: "methodval", prelude: "o := &adder{c, 1}", call: "o.add", mutate: "o = &adder{c, 100}", sig: "(a int) int", args: "a", invoke: "10"},
